@@ -73,6 +73,28 @@ def main():
                                     'cfg': {'lmtp': lmtp, 'pipelining': pipe, 'kind': 'smtp', 'deadline': 1000 + rdrv.CMD_T, 'stage': stage},
                                     'ev': ev}, separators=(',', ':')) + '\n')
                 n += 1
+    # the downstream never answers QUIT: the connection (and with pool size 1 the only slot of the relay's pool) is given up
+    # after the command timeout - the next message waits no longer than that
+    for lmtp in (False, True):
+        for pipe in (False, True):
+            idx += 1
+            if idx % nshards != shard:
+                continue
+            r = rdrv.RelayRun(lmtp, pipe, [{'quit': 'stall'}, {}], pool_size=1)
+            r.attempt(1, 1)
+            r.settle()
+            r.attempt(2, 1)
+            ev = r.run_to_end()
+            conns = [e['conn'] for e in ev if e['t'] == 'peer' and e['stage'] == 'mail' and e.get('m') == 2]
+            mine = [{'t': 'call', 'req': 2, 'nrcpt': 1, 'now': 1000}]
+            mine += [e for e in ev if e['t'] == 'peer' and ((e['stage'] == 'quit' and e['act'] == 'stall') or (conns and e['conn'] == conns[0] and e['stage'] != 'quit'))]
+            mine += [e for e in ev if e['t'] == 'ret' and e['req'] == 2]
+            mine += [e for e in ev if e['t'] == 'end']
+            stats['executions'] += 1
+            f.write(json.dumps({'id': shard + n * nshards, 'cls': 'relaystall-quit' + ('-pipelining' if pipe else ''),
+                                'cfg': {'lmtp': lmtp, 'pipelining': pipe, 'kind': 'smtp', 'deadline': 1000 + rdrv.CMD_T, 'stage': 'quit'},
+                                'ev': mine}, separators=(',', ':')) + '\n')
+            n += 1
     # pipe relay: a child that outlives the configured timeout
     # (per-recipient mode, recipients, index of the recipient whose delivery program outlives the timeout, the program ignores
     # SIGTERM: whatever the relay does about the child it has given up on must not take longer than the timeout either)
